@@ -1273,3 +1273,70 @@ func runC08_11(c *Ctx) {
 		c.Undec("CloseNotify waiters", "", "no shipped function blocks on <-CloseNotify() (the websocket server handler is expected): idiom not recognised")
 	}
 }
+
+// ---------------------------------------------------------------------------------------------------------------
+// C02.15 / C08.12  nobody Close() waits for queues on the lock Close() holds
+
+func init() {
+	t := "no wait cycle through the session lock: Close() holds session.lock while it waits for the outstanding-call and handler wait-groups, so every other acquisition of session.lock (redialForClient, reached from AsyncCall after the call was counted and from handlers) is preceded on every path by a status test that returns for ActiveClosing and ActiveClosed - the two states in which Close holds the lock and waits; otherwise a call issued on a redial-enabled client while Close() waits for another call blocks on the lock, Close waits for that call, and neither ever returns"
+	register(&Rule{ID: "C02.15", Prop: "C02", Min: 1, Text: t, Run: runNoLockUnderClose})
+	register(&Rule{ID: "C08.12", Prop: "C08", Min: 1, Text: "Close returns: " + t, Run: runNoLockUnderClose})
+	register(&Rule{ID: "C13.15", Prop: "C13", Min: 1, Text: "later calls fail fast instead of hanging: " + t, Run: runNoLockUnderClose})
+}
+
+func runNoLockUnderClose(c *Ctx) {
+	p := c.P
+	st := p.statusTable()
+	sessN, lockIdx := p.FieldIndex(Root, "session", "lock")
+	getStatus := p.MethodObj(Root, "session", "getStatus")
+	closeFn := p.Fn(Root, "session", "Close")
+	n := 0
+	for _, fn := range p.ShippedFuncs() {
+		if fn == closeFn || fn.Pkg == nil || fn.Pkg.Pkg.Path() != Root {
+			continue
+		}
+		for _, call := range AllCalls(fn) {
+			o := CalleeObj(call)
+			if o == nil || o.FullName() != "(*sync.RWMutex).Lock" {
+				continue
+			}
+			if _, isDefer := call.(*ssa.Defer); isDefer {
+				continue
+			}
+			fr, _, ok := FieldOfAddr(call.Common().Args[0])
+			if !ok || fr.Struct != sessN || fr.Index != lockIdx {
+				continue
+			}
+			n++
+			key := "session.lock taken in " + FnName(fn)
+			missing := []string{}
+			for _, name := range []string{"statusActiveClosing", "statusActiveClosed"} {
+				k := st.val[name]
+				// every path from the entry to the Lock crosses the != edge of a comparison getStatus() == k
+				cut := map[[2]*ssa.BasicBlock]bool{}
+				for _, e := range EqEdges(fn) {
+					kv, isK := ConstIntOf(e.Y)
+					if !isK || kv != k {
+						continue
+					}
+					if cl, isCall := e.X.(*ssa.Call); !isCall || CalleeObj(cl) != getStatus {
+						continue
+					}
+					cut[[2]*ssa.BasicBlock{e.If.Block(), e.Ne}] = true
+				}
+				target := call.(ssa.Instruction)
+				reach := p.ReachableFromBlock(fn.Blocks[0], func(i ssa.Instruction) bool { return i == target }, nil,
+					func(b *ssa.BasicBlock, si int) bool { return !cut[[2]*ssa.BasicBlock{b, b.Succs[si]}] })
+				if len(cut) == 0 || len(reach) > 0 {
+					missing = append(missing, strings.TrimPrefix(name, "status"))
+				}
+			}
+			c.fact("path-search")
+			c.Check(len(missing) == 0, key, p.InstrPos(call), "reached only past getStatus() != ActiveClosing && != ActiveClosed",
+				FnName(fn)+" queues on session.lock without first returning for "+strings.Join(missing, ", ")+": Close() holds that lock while it waits for the calls in flight - a call issued during that wait (AsyncCall has already counted it) blocks here, Close waits for it, both hang for ever")
+		}
+	}
+	if n == 0 {
+		c.Undec("session.lock acquisitions", "", "no acquisition of session.lock outside Close found (redialForClient is expected): idiom not recognised")
+	}
+}
